@@ -1,6 +1,9 @@
 """C15 - every computed column with a group suffix has one value per group."""
 from __future__ import annotations
 
+import collections
+import itertools
+
 import re
 
 import numpy as np
@@ -179,6 +182,25 @@ def run(tier):
                     items.append((f"{col}={v}@row{i}", new))
             for k in range(0, len(items), 25):
                 tasks.append((d, name, items[k : k + 25]))
+    # row layouts in which the rows of one group are NOT adjacent and the derived ids are sparse: two / three households in one table,
+    # round-robin across households, adults before children, reversed
+    names = list(popgen.LIBRARY)
+    n_layout = 0
+    for d in dates:
+        year = int(d[:4])
+        ring = [[names[i], names[(i + 1) % len(names)]] for i in range(len(names))]
+        ring += [[names[i], names[(i + 5) % len(names)], names[(i + 9) % len(names)]] for i in range(0, len(names), 1 if thorough else 3)]
+        for combo in ring:
+            rows = popgen.combined(combo, year)
+            by_hh = collections.OrderedDict()
+            for r_ in rows:
+                by_hh.setdefault(r_["hh_id"], []).append(r_)
+            robin = [r_ for grp in itertools.zip_longest(*by_hh.values()) for r_ in grp if r_ is not None]
+            items = [("layout=round-robin", robin), ("layout=adults-first", sorted(rows, key=lambda r_: -r_["alter"])),
+                     ("layout=round-robin-reversed", robin[::-1])]
+            tasks_l = (d, "+".join(combo), items)
+            tasks.append(tasks_l)
+            n_layout += len(items)
     for part in harness.pmap(task, harness.rotate(tasks)):
         rep.merge(part)
     from _gettsim.functions_loader import load_internal_functions
@@ -188,7 +210,7 @@ def run(tier):
                     if (getattr(fn, "__info__", {}) or {}).get("name_in_dag", n).endswith(gs) and not (getattr(fn, "__info__", {}) or {}).get("skip_vectorization"))
     for part in harness.pmap(task_rules, [grules[k::32] for k in range(32)]):
         rep.merge(part)
-    rep.bound = {"dates": dates, "households": list(popgen.LIBRARY), "deviation_bound_k": 1, "group_level_rules_all_periods": len(grules),
+    rep.bound = {"dates": dates, "households": list(popgen.LIBRARY), "deviation_bound_k": 1, "row_layout_cases": n_layout, "group_level_rules_all_periods": len(grules),
                  "alternatives_per_input": "reduced alphabet (3)" if thorough else "1 (farthest alternative)"}
     rep.assumptions = ["group membership is taken from the computed *_id nodes of the same run (hh_id from the data)",
                        "every individual-level input (incl. mietstufe, wohnort_ost) is varied for one member of a group at a time; _hh inputs are not "
@@ -196,5 +218,6 @@ def run(tier):
     return rep.finish(
         "library households x every individual-level input varied for one person at a time (members of a group then differ in that input) x "
         "dates, all nodes of the default-target graph; oracle: every node whose name carries a group suffix takes one value per group of the "
-        "matching *_id; a state is (date, household, varied input, value, person)"
+        "matching *_id; a state is (date, household, varied input, value, person); two / three households in one table with rows round-robin across "
+        "households, adults first, and reversed (groups not adjacent, derived ids sparse)"
     )
